@@ -1,32 +1,12 @@
 (* C16 - correspondence / property evaluation on histories observed on the
    implementation.  Executable only. *)
 From Coq Require Import List ZArith Bool.
-From GZ Require Export Lib.CheckLib C16.Model C16.ModelW.
+From GZ Require Export Lib.CheckLib C16.Model C16.ModelW C16.Lin.
 Import ListNotations.
 Open Scope Z_scope.
 
-(* ---------- observables ---------- *)
-Definition obs_eqb (a b : obs) : bool :=
-  match a, b with
-  | OUnit, OUnit => true
-  | OBool x, OBool y => Bool.eqb x y
-  | ONum x, ONum y => x =? y
-  | OOpt x, OOpt y => opt_eqb Z.eqb x y
-  | OList x, OList y => zs_eqb x y
-  | OPairs x, OPairs y => pairs_eqb x y
-  | OTake x lx, OTake y ly => opt_eqb Z.eqb x y && Bool.eqb lx ly
-  | _, _ => false
-  end.
-
+(* ---------- observables ([obs_eqb], [canon_obs] are in Lin.v) ---------- *)
 Definition nonunit (o : obs) : bool := match o with OUnit => false | _ => true end.
-
-(* map iteration order is not observable: sort Range / Keys results *)
-Definition canon_obs (o : obs) : obs :=
-  match o with
-  | OPairs l => OPairs (sort_pairs l)
-  | OList l => OList (sort_z l)
-  | _ => o
-  end.
 
 Definition visible (sorted : bool) (l : list obs) : list obs :=
   let l' := filter nonunit l in if sorted then map canon_obs l' else l'.
@@ -56,6 +36,11 @@ Fixpoint w_spec (size : nat) (iv t0 : Z) (ig : bool) (h : list (Z * Z)) (ops : l
   | WReduce t :: ops' => rw_reduce_spec size iv t0 ig h t :: w_spec size iv t0 ig h ops'
   end.
 
+(* the package's own Bucket[T]: (Sum, Count) of the values of a bucket *)
+Definition bsum (b : list Z) : Z * Z := (fold_right Z.add 0 b, Z.of_nat (length b)).
+Definition sums_eqb := list_eqb pairs_eqb.
+Definition to_sums (l : list (list (list Z))) : list (list (Z * Z)) := map (map bsum) l.
+
 Definition wop_time (o : wop) : Z := match o with WAdd t _ => t | WReduce t => t end.
 
 Fixpoint times_mono (t : Z) (ops : list wop) : bool :=
@@ -69,7 +54,10 @@ Inductive mop :=
 | MP (o : smop)
 | MSetSeq (k0 n v : Z)      (* Set k0 v; Set (k0+1) v; ... (n keys) *)
 | MDelSeq (k0 n : Z)        (* Del k0; Del (k0+1); ... *)
-| MChurn (k v n : Z).       (* n times: Set k v; Del k *)
+| MChurn (k v n : Z)        (* n times: Set k v; Del k *)
+| MRangeStop (n : Z) (vis : list (Z * Z)).
+   (* Range whose callback returns false at its n-th call; vis = the pairs it was shown, in
+      order (which pairs is up to Go's map iteration: an oracle argument, checked below) *)
 
 Definition zseq (k0 n : Z) : list Z := map (fun i => k0 + Z.of_nat i) (seq 0 (Z.to_nat n)).
 
@@ -79,9 +67,96 @@ Definition expand1 (o : mop) : list smop :=
   | MSetSeq k0 n v => map (fun k => MSet k v) (zseq k0 n)
   | MDelSeq k0 n => map MDel (zseq k0 n)
   | MChurn k v n => concat (repeat [MSet k v; MDel k] (Z.to_nat n))
+  | MRangeStop _ _ => []
   end.
 
 Definition expand (ops : list mop) : list smop := flat_map expand1 ops.
+
+Fixpoint nodup_z (l : list Z) : bool :=
+  match l with
+  | [] => true
+  | x :: l' => negb (existsb (Z.eqb x) l') && nodup_z l'
+  end.
+
+Definition in_amap (m : amap) (p : Z * Z) : bool := opt_eqb Z.eqb (alookup (fst p) m) (Some (snd p)).
+
+(* what a stopped Range may have shown, by the property: min(max n 1, size) pairs of the
+   map, no key twice *)
+Definition sub_ok (m : amap) (n : Z) (vis : list (Z * Z)) : bool :=
+  (Z.of_nat (length vis) =? Z.min (Z.max n 1) (alen m)) &&
+  nodup_z (map fst vis) && forallb (in_amap m) vis.
+
+(* ... and by the code: dirtyOld is shown completely before anything of dirtyNew *)
+Definition sm_sub_ok (m : safemap) (n : Z) (vis : list (Z * Z)) : bool :=
+  let k := length (dirtyOld m) in
+  sub_ok (dirtyOld m ++ dirtyNew m) n vis &&
+  forallb (in_amap (dirtyOld m)) (firstn k vis) && forallb (in_amap (dirtyNew m)) (skipn k vis).
+
+(* one pass over a history with bulk operations: the visible observations (canonical: Range
+   sorted) and whether every stopped Range was shown an allowed selection *)
+Definition prim_acc {St} (step : St -> smop -> St * obs) (sa : St * list obs) (o : smop) : St * list obs :=
+  let (s', r) := step (fst sa) o in
+  (s', if nonunit r then canon_obs r :: snd sa else snd sa).
+
+Fixpoint mrun {St} (step : St -> smop -> St * obs) (stop_ok : St -> Z -> list (Z * Z) -> bool)
+         (ops : list mop) (sa : St * list obs) (ok : bool) : list obs * bool :=
+  match ops with
+  | [] => (rev (snd sa), ok)
+  | MRangeStop n vis :: ops' => mrun step stop_ok ops' sa (if stop_ok (fst sa) n vis then ok else false)
+  | o :: ops' => mrun step stop_ok ops' (fold_left (prim_acc step) (expand1 o) sa) ok
+  end.
+
+Definition mcheck {St} (step : St -> smop -> St * obs) (stop_ok : St -> Z -> list (Z * Z) -> bool)
+           (init : St) (ops : list mop) (seen : list obs) : bool :=
+  let (model, ok) := mrun step stop_ok ops (init, []) true in
+  if ok then list_eqb obs_eqb model (visible true seen) else false.
+
+(* ---------- cache: observations that do not touch the recency order ---------- *)
+Inductive ccop :=
+| CC (o : cop)
+| CHeld        (* the keys of c.data *)
+| CSize.       (* Cache.size() *)
+
+Fixpoint cc_run (c : cache) (ops : list ccop) : list obs :=
+  match ops with
+  | [] => []
+  | CC o :: ops' => let '(c', r, _) := c_step c o in r :: cc_run c' ops'
+  | CHeld :: ops' => OList (map fst (cdata c)) :: cc_run c ops'
+  | CSize :: ops' => ONum (alen (cdata c)) :: cc_run c ops'
+  end.
+
+Fixpoint sc_run (s : scache) (ops : list ccop) : list obs :=
+  match ops with
+  | [] => []
+  | CC o :: ops' => let '(s', r, _) := s_step s o in r :: sc_run s' ops'
+  | CHeld :: ops' => OList (map fst (sents s)) :: sc_run s ops'
+  | CSize :: ops' => ONum (Z.of_nat (length (sents s))) :: sc_run s ops'
+  end.
+
+(* one step, for the linearisation search *)
+Definition cc_step (c : cache) (o : ccop) : cache * obs :=
+  match o with
+  | CC o => let '(c', r, _) := c_step c o in (c', r)
+  | CHeld => (c, OList (map fst (cdata c)))
+  | CSize => (c, ONum (alen (cdata c)))
+  end.
+
+Definition sc_step (s : scache) (o : ccop) : scache * obs :=
+  match o with
+  | CC o => let '(s', r, _) := s_step s o in (s', r)
+  | CHeld => (s, OList (map fst (sents s)))
+  | CSize => (s, ONum (Z.of_nat (length (sents s))))
+  end.
+
+(* every size / key set the implementation reported is within the limit *)
+Fixpoint sizes_ok (limit : Z) (ops : list ccop) (seen : list obs) : bool :=
+  match ops, seen with
+  | CC (CSet _ _) :: ops', _ | CC (CDel _) :: ops', _ | CC (CExpire _) :: ops', _ => sizes_ok limit ops' seen
+  | CHeld :: ops', OList l :: seen' => (Z.of_nat (length l) <=? limit) && nodup_z l && sizes_ok limit ops' seen'
+  | CSize :: ops', ONum n :: seen' => (n <=? limit) && sizes_ok limit ops' seen'
+  | _ :: ops', _ :: seen' => sizes_ok limit ops' seen'
+  | _, _ => true
+  end.
 
 
 (* ---------- cache + wheel: reference = stamp LRU + "key -> ticks remaining" ---------- *)
@@ -135,27 +210,91 @@ Definition xop_in_scope (interval : Z) (o : xop) : bool :=
   | _ => true
   end.
 
+(* ---------- cache + wheel with the non-perturbing observations ---------- *)
+Inductive xxop := XX (o : xop) | XHeld | XSize.
+
+Fixpoint cwx_run (s : cachew) (ops : list xxop) : list obs :=
+  match ops with
+  | [] => []
+  | XX o :: ops' => let '(s', r, _) := cw_step s o in r :: cwx_run s' ops'
+  | XHeld :: ops' => OList (map fst (cdata (cwc s))) :: cwx_run s ops'
+  | XSize :: ops' => ONum (alen (cdata (cwc s))) :: cwx_run s ops'
+  end.
+
+Fixpoint refwx_run (interval : Z) (s : refw) (ops : list xxop) : list obs :=
+  match ops with
+  | [] => []
+  | XX o :: ops' => let (s', r) := refw_step interval s o in r :: refwx_run interval s' ops'
+  | XHeld :: ops' => OList (map fst (sents (rws s))) :: refwx_run interval s ops'
+  | XSize :: ops' => ONum (Z.of_nat (length (sents (rws s)))) :: refwx_run interval s ops'
+  end.
+
+Fixpoint xsizes_ok (limit : Z) (seen : list obs) : bool :=
+  match seen with
+  | [] => true
+  | OList l :: seen' => (Z.of_nat (length l) <=? limit) && xsizes_ok limit seen'
+  | ONum n :: seen' => (n <=? limit) && xsizes_ok limit seen'
+  | _ :: seen' => xsizes_ok limit seen'
+  end.
+
+(* ---------- free-running window: the clock stands still, so every add lands in the
+   current bucket; Reduce shows all of them (as a multiset), or nothing when the current
+   bucket is ignored ---------- *)
+Inductive wlop := WLAdd (v : Z) | WLReduce.
+
+Definition wl_step (w : rw) (now : Z) (o : wlop) : rw * obs :=
+  match o with
+  | WLAdd v => (rw_add w now v, OUnit)
+  | WLReduce => (w, OList (concat (rw_reduce w now)))
+  end.
+
+Definition wl_spec_step (ig : bool) (l : list Z) (o : wlop) : list Z * obs :=
+  match o with
+  | WLAdd v => (l ++ [v], OUnit)
+  | WLReduce => (l, OList (if ig then [] else l))
+  end.
+
 (* ---------- cases ---------- *)
 Inductive case :=
 | KWindow (size : Z) (iv t0 : Z) (ig : bool) (ops : list wop) (seen : list (list (list Z)))
+| KWindowSum (size : Z) (iv t0 : Z) (ig : bool) (ops : list wop) (seen : list (list (Z * Z)))
 | KSafeMap (copyThr maxDel : Z) (ops : list mop) (seen : list obs)
 | KQueue (size : Z) (ops : list qop) (seen : list obs)
 | KRing (n : Z) (ops : list rop) (seen : list obs)
 | KSet (ops : list sop) (seen : list obs)
-| KCache (limit : Z) (ops : list cop) (seen : list obs)
-| KCacheW (limit slots interval : Z) (mv : bool) (ops : list xop) (seen : list obs).
+| KCache (limit : Z) (ops : list ccop) (seen : list obs)
+| KCacheW (limit slots interval : Z) (mv : bool) (ops : list xxop) (seen : list obs)
+(* free-running goroutines after a sequential prefix *)
+| KLinMap (copyThr maxDel : Z) (pre : list mop) (evs : list (lev smop))
+| KLinQueue (size : Z) (pre : list qop) (evs : list (lev qop))
+| KLinRing (n : Z) (pre : list rop) (evs : list (lev rop))
+| KLinCache (limit : Z) (pre : list ccop) (evs : list (lev ccop))
+| KLinWindow (size iv t0 : Z) (ig : bool) (evs : list (lev wlop)).
 
 Definition agrees (c : case) : bool :=
   match c with
   | KWindow size iv t0 ig ops seen =>
     list_eqb lists_eqb (w_run (rw_new (Z.to_nat size) iv t0 ig) ops) seen
-  | KSafeMap ct md ops seen => same true (sm_run (mkSMC ct md) sm_new (expand ops)) seen
+  | KWindowSum size iv t0 ig ops seen =>
+    sums_eqb (to_sums (w_run (rw_new (Z.to_nat size) iv t0 ig) ops)) seen
+  | KSafeMap ct md ops seen =>
+    mcheck (sm_step (mkSMC ct md)) sm_sub_ok sm_new ops seen
   | KQueue size ops seen => same false (q_run (q_new (Z.to_nat size)) ops) seen
   | KRing n ops seen => same false (r_run (r_new (Z.to_nat n)) ops) seen
   | KSet ops seen => same true (set_run [] ops) seen
-  | KCache limit ops seen => same false (c_run (c_new limit) ops) seen
+  | KCache limit ops seen => same true (cc_run (c_new limit) ops) seen
   | KCacheW limit slots interval mv ops seen =>
-    same false (cw_run (cw_new limit slots interval mv) ops) seen
+    same true (cwx_run (cw_new limit slots interval mv) ops) seen
+  | KLinMap ct md pre evs =>
+    linearisable_b (sm_step (mkSMC ct md)) true (run_pre (sm_step (mkSMC ct md)) sm_new (expand pre)) evs
+  | KLinQueue size pre evs =>
+    linearisable_b q_step false (run_pre q_step (q_new (Z.to_nat size)) pre) evs
+  | KLinRing n pre evs =>
+    linearisable_b r_step false (run_pre r_step (r_new (Z.to_nat n)) pre) evs
+  | KLinCache limit pre evs =>
+    linearisable_b cc_step true (run_pre cc_step (c_new limit) pre) evs
+  | KLinWindow size iv t0 ig evs =>
+    linearisable_b (fun w o => wl_step w t0 o) true (rw_new (Z.to_nat size) iv t0 ig) evs
   end.
 
 (* the number of distinct keys a trailing run of Get hits found = entries held *)
@@ -167,21 +306,15 @@ Fixpoint hits (seen : list obs) : Z :=
   | _ :: l => hits l
   end.
 
-Fixpoint nodup_z (l : list Z) : bool :=
-  match l with
-  | [] => true
-  | x :: l' => negb (existsb (Z.eqb x) l') && nodup_z l'
-  end.
-
 (* a trailing run of Gets of pairwise distinct keys probes how many entries the
    cache holds: never more than the limit *)
-Fixpoint leading_gets (ops : list cop) : list Z :=
+Fixpoint leading_gets (ops : list ccop) : list Z :=
   match ops with
-  | CGet k :: ops' => k :: leading_gets ops'
+  | CC (CGet k) :: ops' => k :: leading_gets ops'
   | _ => []
   end.
 
-Definition probe_ok (limit : Z) (ops : list cop) (seen : list obs) : bool :=
+Definition probe_ok (limit : Z) (ops : list ccop) (seen : list obs) : bool :=
   let ks := leading_gets (rev ops) in
   if nodup_z ks then hits (firstn (length ks) (rev (filter nonunit seen))) <=? limit else true.
 
@@ -192,30 +325,48 @@ Definition prop_ok (c : case) : bool :=
     if (1 <=? size) && (0 <? iv) && times_mono t0 ops then
       list_eqb lists_eqb (w_spec (Z.to_nat size) iv t0 ig [] ops) seen
     else true
-  | KSafeMap _ _ ops seen => same true (map_run [] (expand ops)) seen
+  | KWindowSum size iv t0 ig ops seen =>
+    if (1 <=? size) && (0 <? iv) && times_mono t0 ops then
+      sums_eqb (to_sums (w_spec (Z.to_nat size) iv t0 ig [] ops)) seen
+    else true
+  | KSafeMap _ _ ops seen => mcheck map_step sub_ok [] ops seen
   | KQueue size ops seen => if 1 <=? size then same false (fifo_run [] ops) seen else true
   | KRing n ops seen => if 1 <=? n then same false (hist_run (Z.to_nat n) [] ops) seen else true
   | KSet ops seen =>
     (* Contains/Count/Keys as determined by the last Add/Remove of each key *)
     same true (set_spec_run [] ops) seen
   | KCache limit ops seen =>
-    same false (s_run (s_new limit) ops) seen &&
-    (if 0 <? limit then probe_ok limit ops seen else true)
+    same true (sc_run (s_new limit) ops) seen &&
+    (if 0 <? limit then probe_ok limit ops seen && sizes_ok limit ops (filter nonunit seen) else true)
   | KCacheW limit slots interval mv ops seen =>
     if (1 <=? slots) && (1 <=? interval) then
-      same false (refw_run interval (mkRefW (s_new limit) []) ops) seen
+      same true (refwx_run interval (mkRefW (s_new limit) []) ops) seen &&
+      (if 0 <? limit then xsizes_ok limit seen else true)
     else true
+  | KLinMap _ _ pre evs =>
+    linearisable_b map_step true (run_pre map_step [] (expand pre)) evs
+  | KLinQueue size pre evs =>
+    if 1 <=? size then linearisable_b fifo_step false (run_pre fifo_step [] pre) evs else true
+  | KLinRing n pre evs =>
+    if 1 <=? n then linearisable_b (hist_step (Z.to_nat n)) false (run_pre (hist_step (Z.to_nat n)) [] pre) evs
+    else true
+  | KLinCache limit pre evs =>
+    linearisable_b sc_step true (run_pre sc_step (s_new limit) pre) evs
+  | KLinWindow size iv t0 ig evs =>
+    if (1 <=? size) && (0 <? iv) then linearisable_b (wl_spec_step ig) true [] evs else true
   end.
 
-Inductive mobs := MW (l : list (list (list Z))) | MO (l : list obs).
+Inductive mobs := MW (l : list (list (list Z))) | MO (l : list obs) | MB (b : bool).
 
 Definition model_obs (c : case) : mobs :=
   match c with
   | KWindow size iv t0 ig ops _ => MW (w_run (rw_new (Z.to_nat size) iv t0 ig) ops)
-  | KSafeMap ct md ops _ => MO (visible true (sm_run (mkSMC ct md) sm_new (expand ops)))
+  | KWindowSum size iv t0 ig ops _ => MW (w_run (rw_new (Z.to_nat size) iv t0 ig) ops)
+  | KSafeMap ct md ops _ => MO (fst (mrun (sm_step (mkSMC ct md)) sm_sub_ok ops (sm_new, []) true))
   | KQueue size ops _ => MO (visible false (q_run (q_new (Z.to_nat size)) ops))
   | KRing n ops _ => MO (visible false (r_run (r_new (Z.to_nat n)) ops))
   | KSet ops _ => MO (visible true (set_run [] ops))
-  | KCache limit ops _ => MO (visible false (c_run (c_new limit) ops))
-  | KCacheW limit slots interval mv ops _ => MO (visible false (cw_run (cw_new limit slots interval mv) ops))
+  | KCache limit ops _ => MO (visible true (cc_run (c_new limit) ops))
+  | KCacheW limit slots interval mv ops _ => MO (visible true (cwx_run (cw_new limit slots interval mv) ops))
+  | _ => MB (agrees c)
   end.
